@@ -295,7 +295,8 @@ def _raise_from_response(res):
 
     try:
         json_resp = res.json()
-        if not ("error" in json_resp and "errorMessage" in json_resp):
+        if not (isinstance(json_resp, dict) and
+                "error" in json_resp and "errorMessage" in json_resp):
             raise ValueError
     except ValueError:
         message = "[{status_code}] Malformed error message: '{response_text}'"
